@@ -12,6 +12,7 @@ from jax2onnx._compat.jax import (
     batching,
 )
 import jax.numpy as jnp
+import numpy as np
 import onnx_ir as ir
 from numpy.typing import ArrayLike
 
@@ -20,7 +21,7 @@ from jax2onnx.plugins._ir_shapes import _ensure_value_metadata, _stamp_type_and_
 from jax2onnx.plugins._patching import AssignSpec, MonkeyPatchSpec
 from jax2onnx.plugins._post_check_onnx_graph import expect_graph as EG
 from jax2onnx.plugins.jax._autodiff_utils import register_jvp_via_jax_jvp
-from jax2onnx.plugins.jax._batching_utils import broadcast_batcher_compat
+from jax2onnx.plugins.jax._batching_utils import matmul_batcher_compat
 from jax2onnx.plugins.jax.numpy._common import get_orig_impl, make_jnp_primitive
 from jax2onnx.plugins.plugin_system import PrimitiveLeafPlugin, register_primitive
 
@@ -233,7 +234,17 @@ def _dot_batch_rule(
     dims: tuple[Any, ...],
     **params: Any,
 ) -> Any:
-    return broadcast_batcher_compat(JnpDotPlugin._PRIM, args, dims, **params)
+    a, b = args
+    a_rank = np.ndim(a) - (0 if dims[0] is None else 1)
+    b_rank = np.ndim(b) - (0 if dims[1] is None else 1)
+    if 1 <= a_rank <= 2 and 1 <= b_rank <= 2:
+        # for vectors and matrices dot is matmul; dot itself does not broadcast batch dimensions
+        from jax2onnx.plugins.jax.numpy.matmul import JnpMatmulPlugin
+
+        return matmul_batcher_compat(JnpMatmulPlugin._PRIM.bind, args, dims, **params)
+    raise NotImplementedError(
+        "vmap of jnp.dot is supported for vector / matrix operands only"
+    )
 
 
 batching.primitive_batchers[JnpDotPlugin._PRIM] = _dot_batch_rule
